@@ -73,6 +73,35 @@ def replay_c10():
                     fails.append({"cell": cell.tolist(), "pbc": pbc, "cutoff": cutoff, "positions": pos.tolist(), "observed": bad[:3]})
                 if len(fails) >= 3:
                     return {"reproduced": True, "failing_inputs": fails}
+            # the same tables through get_distances (atoms spread over the cell, and atoms bunched in one corner of it)
+            from ase import Atoms
+            for sp2 in (sp, 0.08 + 0.4 * sp, 0.55 + 0.4 * sp):
+                pos2 = sp2 @ cell
+                ref2 = brute_mic(pos2, cell, pbc, R=7 if cell[2, 2] < 10 else 3)
+                try:
+                    at = Atoms(numbers=[1, 6, 8], positions=pos2, cell=cell, pbc=pbc)
+                    D = g.get_distances(at, radii="covalent")
+                    rad = g.get_radii("covalent", at.get_atomic_numbers())
+                except Exception as e:  # noqa
+                    fails.append({"function": "get_distances", "observed": "%s: %s" % (type(e).__name__, e)})
+                    continue
+                bad = []
+                for i in range(n):
+                    for j in range(n):
+                        if i != j and ref2[i, j] <= Lmax - 1e-9 and abs(D.dist_matrix_mic[i, j] - ref2[i, j]) > 1e-8:
+                            bad.append("get_distances: pair (%d,%d) reported %r, minimum image %r" % (i, j, float(D.dist_matrix_mic[i, j]), float(ref2[i, j])))
+                        if not np.isfinite(D.dist_matrix_mic[i, j]):
+                            bad.append("get_distances: infinite entry")
+                        elif abs(D.dist_matrix_radii_mic[i, j] - (D.dist_matrix_mic[i, j] - rad[i] - rad[j])) > 1e-9:
+                            bad.append("get_distances: radii-corrected entry is not dist - r_i - r_j")
+                        if i != j and np.isfinite(D.dist_matrix_mic[i, j]):
+                            v = pos2[i] - pos2[j] - D.disp_factors[i, j] @ cell
+                            if np.abs(v - D.disp_tensor_mic[i, j]).max() > 1e-8:
+                                bad.append("get_distances: displacement is not r_i - r_j - factor.cell")
+                if bad:
+                    fails.append({"function": "get_distances", "cell": cell.tolist(), "pbc": pbc, "positions": pos2.tolist(), "observed": bad[:3]})
+                if len(fails) >= 3:
+                    return {"reproduced": True, "failing_inputs": fails}
     return {"reproduced": bool(fails), "failing_inputs": fails}
 
 
@@ -133,7 +162,37 @@ def replay_c16():
                     fails.append({"cell": cell.tolist(), "pbc": pbc, "extension": ext_d, "cutoff": cutoff, "observed": bad[:3]})
                 if len(fails) >= 3:
                     return {"reproduced": True, "failing_inputs": fails}
-    return {"reproduced": bool(fails), "failing_inputs": fails}
+    # the nearest image decides: two species close together, queries between them (nearest image within the tolerance for both)
+    for pbc in ((True, True, True), (True, False, True), (False, False, False)):
+        cell = np.diag([4.0, 4.0, 4.0])
+        at = Atoms(numbers=[1, 2], positions=[[1.0, 1.0, 1.0], [1.6, 1.0, 1.0]], cell=cell, pbc=pbc)
+        tol = 0.5
+        cl = g.get_cell_list(at.get_positions(), cell, np.array(pbc), tol, tol)
+        shift = cell[0] if pbc[0] else np.zeros(3)
+        queries = np.array([[1.35, 1.0, 1.0], [1.1, 1.0, 1.0], [1.35, 1.0, 1.0] + shift, [3.0, 3.0, 3.0], [1.5, 1.0, 1.0]])
+        qn = np.array([1, 1, 1, 1, 2])
+        # nearest image: He (0.25), H (0.1), He (0.25, through the boundary), nothing, He (0.1)
+        want_simple = [None, 0, None, None, 1]
+        bad = []
+        try:
+            ms, ds = g.get_matches_simple(at, cl, queries, qn, tol)
+            if list(ms) != want_simple:
+                bad.append("get_matches_simple returns %s, nearest-image rule gives %s" % (list(ms), want_simple))
+            mt, sb, vac, ci = g.get_matches(at, cl, queries, qn, tol)
+            want_m = [None, 0, None, None, 1]
+            if list(mt) != want_m:
+                bad.append("get_matches matches %s, nearest-image rule gives %s" % (list(mt), want_m))
+            if sb[0] is None or sb[0].index != 1 or sb[2] is None or sb[2].index != 1 or sb[1] is not None or sb[3] is not None or sb[4] is not None:
+                bad.append("get_matches substitutions %s: expected the He atom for queries 0 and 2 only" % [None if x is None else x.index for x in sb])
+            if len(vac) != 1:
+                bad.append("get_matches reports %d vacancies, expected 1 (query 3)" % len(vac))
+            if pbc[0] and tuple(int(v) for v in np.rint(ci[2])) == tuple(int(v) for v in np.rint(ci[0])):
+                bad.append("cell offset of the query shifted by a lattice vector equals the unshifted one")
+        except Exception as e:  # noqa
+            bad.append("%s: %s" % (type(e).__name__, e))
+        if bad:
+            fails.append({"cell": cell.tolist(), "pbc": pbc, "atoms": "H (1,1,1), He (1.6,1,1)", "queries": queries.tolist(), "species": qn.tolist(), "tolerance": tol, "observed": bad[:3]})
+    return {"reproduced": bool(fails), "failing_inputs": fails[:3]}
 
 
 # ---------------------------------------------------------------------------------------------
